@@ -2,7 +2,7 @@
 //! concurrent compilations on other threads, whatever ran earlier in the process.
 
 use crate::exec::*;
-use vcommon::pool::{draw_item, twin_with_other_format};
+use vcommon::pool::{draw_item, sibling_of, twin_with_other_format};
 use serde::{Deserialize, Serialize};
 use serde_json::{json, Value as Json};
 use std::cell::RefCell;
@@ -183,6 +183,20 @@ pub fn draw_plan(rng: &mut Rng, index: u64, tier: Tier) -> ExecPlan {
         };
         tasks.push((0..h).map(|_| draw_item(rng)).collect::<Vec<Item>>());
     }
+    // siblings: another input over the same files, earlier in the same task or in another task
+    for t in 0..tasks.len() {
+        for k in 0..tasks[t].len() {
+            if let Some(sib) = sibling_of(&tasks[t][k], rng) {
+                if rng.chance(1, 2) {
+                    tasks[t].insert(k, sib);
+                } else {
+                    let t2 = rng.usize(tasks.len());
+                    tasks[t2].insert(0, sib);
+                }
+                break;
+            }
+        }
+    }
     // twins: some item also appears elsewhere in the plan under another output format
     if rng.chance(1, 2) {
         let (t, k) = (rng.usize(tasks.len()), 0);
@@ -337,6 +351,11 @@ impl Prop for C05 {
     }
     fn evidence_extra(&self, stats: &Stats) -> Json {
         world_b_extra(stats)
+    }
+    fn abort_needs_fresh_confirmation(&self) -> bool {
+        // shuttle drops lazy statics at the end of each execution; a reference to one of them kept
+        // in a real static would dangle in the NEXT execution of the same worker only
+        true
     }
     fn rule(&self) -> String {
         "One run = one shuttle execution = one simulated process lifetime: 1-4 tasks (8/16 in the large stratum) each compiling 1-5 inputs (20/50 in the long stratum) drawn from probe programs (digest of all seven built-in modules), state-attack programs, module-graph items and the 13 451-case sass-spec corpus, under a seeded Random or PCT(2-4) scheduler with every Mutex/Once/lazy-static operation of rsass a scheduling point (plus optional sleep(0) in loader lookups). Every compilation that does not call random()/unique-id() must equal the result of the same input compiled alone in a fresh simulated process. evaluations = compilations inside executions; non-trivial = an execution with >=2 tasks that contended for at least one lock; distinct = distinct interleaving signatures (order of task switches over acquisitions of locks taken by more than one task).".into()
